@@ -99,16 +99,17 @@ def rel_spelling(frm, to):
 def decorate(rng, comps, level):
     """Insert '.', 'x/..', empty segments into a component list; returns a string body (no leading slash)."""
     out = []
-    for c in comps:
+    for j, c in enumerate(comps):
         r = rng.random()
+        last = j == len(comps) - 1
         if level and r < 0.12:
             out.append(".")
-        elif level and r < 0.20 and c != "..":
-            out += [c, ".."]
-        elif level and r < 0.26:
+        elif level and r < (0.135 if last else 0.22) and c != "..":
+            out += [c, ".."]          # through the last name: only valid when it is a directory
+        elif level and r < 0.28:
             out.append("")
         out.append(c)
-    if level and rng.random() < 0.08:
+    if level and rng.random() < 0.04:
         out.append(rng.choice([".", ""]))
     s = "/".join(out)
     return s
@@ -284,6 +285,30 @@ class C13(Check):
         for i in range(n // 5):
             out.append(self.gen_attr_case())
         self.stats["dist"] = self.measure(out)
+        paths = self.path_cases()
+        self.stats["dist"]["path_function_cases"] = len(paths)
+        return out + paths
+
+    def path_cases(self):
+        """Direct correspondence of the posixpath/pathlib model: every string over {'/', '.', 'a'} up to a
+        length bound (with a second operand from a fixed list), every pair of short strings, random longer ones."""
+        rng = self.rng
+        alpha = "/.a"
+        one = 6 if self.tier == "quick" else 9
+        two = 3 if self.tier == "quick" else 4
+        seconds = ["/", "/w", "//w/x", "/w/", "///", "w", "", "..", "/w/../.."]
+        out = []
+        for n in range(one + 1):
+            for t in itertools.product(alpha, repeat=n):
+                out.append({"paths": ["".join(t), rng.choice(seconds)]})
+        short = ["".join(t) for n in range(two + 1) for t in itertools.product(alpha, repeat=n)]
+        for a in short:
+            for b in short:
+                out.append({"paths": [a, b]})
+        for _ in range(300 if self.tier == "quick" else 20000):
+            a = "".join(rng.choice("//..ab.c") for _ in range(rng.randint(0, 14)))
+            b = "".join(rng.choice("//..ab") for _ in range(rng.randint(0, 8)))
+            out.append({"paths": [a, b]})
         return out
 
     def gen_attr_case(self):
@@ -332,6 +357,9 @@ class C13(Check):
         return None
 
     def encode(self, case):
+        if "paths" in case:
+            a, b = case["paths"]
+            return enc(["P", a.encode(), b.encode()])
         base = make_tree(case["tree"])
         bcomps = [c for c in str(base).split("/") if c]
         objs = [[bcomps[:j], True] for j in range(1, len(bcomps) + 1)]
@@ -350,6 +378,12 @@ class C13(Check):
 
     # -------------------------------------------------------------- implementation
     def impl(self, case):
+        if "paths" in case:
+            import pathlib
+            a, b = case["paths"]
+            return ["P", os.path.normpath(a), os.path.join(a, b),
+                    os.path.normpath(a if os.path.isabs(a) else os.path.join(b, a)),   # abspath with getcwd() = b
+                    os.path.basename(a), pathlib.Path(a).suffix, int(os.path.isabs(a))]
         from codebasin import config
         base = make_tree(case["tree"])
         dbdir = common.scratch() / "c13"
@@ -429,9 +463,11 @@ class C13(Check):
 
     # -------------------------------------------------------------- views
     def impl_view_for_model(self, case, ia):
-        return ia[:3]
+        return ia if "paths" in case else ia[:3]
 
     def model_view(self, case, ans):
+        if "paths" in case:
+            return ["P"] + list(ans)
         base = make_tree(case["tree"])
         m = ans[0]
         if m[0] == "Err":
@@ -449,7 +485,7 @@ class C13(Check):
 
     def spec(self, case, ans):
         self._kflags = None
-        if ans is None or isinstance(ans, str):
+        if ans is None or isinstance(ans, str) or "paths" in case:
             return None
         s = ans[1]
         if s == "None":
@@ -509,14 +545,26 @@ class C13(Check):
 
     def in_domain(self, case, sa):
         # spec() has just been called for this case and left the kernel-agreement flags
-        if sa is None or self._kflags is None:
+        dom = self.stats.setdefault("domain", {"path_function_cases_(I~M only)": 0, "S_undefined_(malformed_database)": 0,
+                                               "spelling_crosses_missing_directory_or_file": 0, "in_domain": 0})
+        if "paths" in case:
+            dom["path_function_cases_(I~M only)"] += 1
             return False
-        return all(f == 1 for f in self._kflags)
+        if sa is None or self._kflags is None:
+            dom["S_undefined_(malformed_database)"] += 1
+            return False
+        if not all(f == 1 for f in self._kflags):
+            dom["spelling_crosses_missing_directory_or_file"] += 1
+            return False
+        dom["in_domain"] += 1
+        return True
 
     def classify(self, case, ia, sa):
         return None
 
     def nontrivial(self, case, ia):
+        if "paths" in case:
+            return False
         if ia[0] != "Ok" or not ia[1]:
             return False
         for e in case["entries"]:
@@ -534,6 +582,8 @@ class C13(Check):
         return False
 
     def shrink(self, case, still_fails):
+        if "paths" in case:
+            return case
         c = dict(case)
         ents = common.shrink_list(case["entries"], lambda es: bool(es) and still_fails({**c, "entries": es}))
         c["entries"] = ents
@@ -605,7 +655,8 @@ class C13(Check):
         return out
 
     def extra_coverage(self):
-        return {"input_distribution": self.stats.get("dist", {}), "gcc_oracle": self.stats.get("oracle", {})}
+        return {"input_distribution": self.stats.get("dist", {}), "gcc_oracle": self.stats.get("oracle", {}),
+                "domain_breakdown": self.stats.get("domain", {})}
 
     # -------------------------------------------------------------- S versus gcc
     def self_tests(self):
